@@ -12,16 +12,19 @@ import (
 	"sort"
 	"strings"
 	"sync"
+	"sync/atomic"
 	"time"
 
 	"github.com/gorilla/websocket"
 	"github.com/practable/relay/verifharness/lib"
+	log "github.com/sirupsen/logrus"
 )
 
 // A scenario is one relay's life: the steps applied to it, in order.
 type Scenario struct {
 	Kind       string `json:"kind"` // faults | api
 	BufferSize int    `json:"buffer_size"`
+	Log        string `json:"log,omitempty"` // trace | debug: the relay's log level (output discarded); behaviour must not depend on it
 	Steps      []Step `json:"steps"`
 }
 
@@ -91,10 +94,11 @@ var bookingNames = []string{"", "c08-bk-A", "c08-bk-B", "c08-bk-C"}
 // ---------------------------------------------------------------- generators
 var faultKinds = []string{"oversize", "reserved-opcode", "unmasked", "big-control", "truncated", "rst", "half-close", "stall-flood", "idle-stall",
 	"status-churn-flood", "junk-dials-during-sessions", "stall-flood-deny", "stall-flood-expiry",
-	"pong-unsolicited", "ping-odd", "close-odd", "fragments"}
+	"pong-unsolicited", "ping-odd", "close-odd", "fragments",
+	"oversize-deflate", "truncated-readonly", "half-open-crowd"}
 
 func genFaults(r *lib.Rng, i int) *Scenario {
-	sc := &Scenario{Kind: "faults", BufferSize: r.Range(1, 2)}
+	sc := &Scenario{Kind: "faults", BufferSize: r.Range(1, 2), Log: []string{"", "trace", "", "debug"}[i%4]}
 	n := r.Range(2, 5)
 	flooded := false
 	heavy := map[string]bool{}
@@ -133,7 +137,7 @@ func genFaults(r *lib.Rng, i int) *Scenario {
 }
 
 func genAPI(r *lib.Rng, i int) *Scenario {
-	sc := &Scenario{Kind: "api", BufferSize: 8}
+	sc := &Scenario{Kind: "api", BufferSize: 8, Log: []string{"debug", "", "", "trace"}[i%4]}
 	nb := uint64(r.Range(2, 3))
 	nextCode, nextConn := uint64(1), uint64(1)
 	var codes, conns []uint64
@@ -301,6 +305,7 @@ type child struct {
 	adm   string
 	keep  []interface{}
 	mu    sync.Mutex
+	hdr   int32
 	next  uint64 // abstract connection names for the faults scenarios
 	evs   []Ev
 }
@@ -320,24 +325,74 @@ func (c *child) open(topic, bid, ua string) (*websocket.Conn, error) {
 
 // openExp: as open, with a token that expires expIn seconds from now
 func (c *child) openExp(topic, bid, ua string, expIn int64) (*websocket.Conn, error) {
+	return c.openWith(topic, bid, ua, expIn, []string{"read", "write"}, false)
+}
+
+// openWith: scopes of the token, and whether the client offers permessage-deflate
+func (c *child) openWith(topic, bid, ua string, expIn int64, scopes []string, deflate bool) (*websocket.Conn, error) {
 	now := time.Now().Unix()
-	cl := c.rl.Claims(topic, bid, []string{"read", "write"}, now-1, now-1, now+expIn)
+	cl := c.rl.Claims(topic, bid, scopes, now-1, now-1, now+expIn)
 	st, uri, code := c.rl.Session(topic, lib.Sign(cl, c.rl.Secret))
 	if st != 200 || code == "" {
 		return nil, fmt.Errorf("session answered %d", st)
 	}
-	return c.dial(uri, ua)
+	return c.dialWith(uri, ua, deflate)
 }
 
-func (c *child) dial(uri, ua string) (*websocket.Conn, error) {
-	h := http.Header{}
+func (c *child) dial(uri, ua string) (*websocket.Conn, error) { return c.dialWith(uri, ua, false) }
+
+// every upgrade request carries the next header profile in turn (what proxies and odd clients add):
+// on a correct relay none of them changes anything
+func (c *child) dialWith(uri, ua string, deflate bool) (*websocket.Conn, error) {
+	h := upgradeHeaders(int(atomic.AddInt32(&c.hdr, 1)))
 	h.Set("User-Agent", ua)
-	conn, _, err := lib.Dial(uri, h)
+	d := websocket.Dialer{HandshakeTimeout: 3 * time.Second, EnableCompression: deflate}
+	conn, _, err := d.Dial(uri, h)
 	if err != nil {
 		return nil, err
 	}
 	c.hold(conn)
 	return conn, nil
+}
+
+func upgradeHeaders(k int) http.Header {
+	h := http.Header{}
+	now := time.Now()
+	switch k % 14 {
+	case 1:
+		h.Set("X-Forwarded-For", "203.0.113.7")
+	case 2:
+		h.Set("X-Forwarded-For", "203.0.113.7, 10.0.0.1")
+	case 3:
+		h.Set("X-Forwarded-For", "203.0.113.7:4711")
+	case 4:
+		h.Set("X-Forwarded-For", "[2001:db8::7]:443")
+	case 5:
+		h.Set("X-Forwarded-For", "[2001:db8::7") // a truncated IPv6 literal
+	case 6:
+		h.Set("X-Forwarded-For", strings.Repeat("9", 4096))
+		h.Set("X-Real-Ip", "")
+	case 7:
+		h.Set("X-Real-Ip", "198.51.100.9")
+		h.Set("Forwarded", "for=198.51.100.9;proto=https")
+	case 8:
+		h.Set("X-Request-Id", "req-1") // the same on many connections
+		h.Set("X-Correlation-Id", "req-1")
+		h.Set("Traceparent", "00-0af7651916cd43dd8448eb211c80319c-b7ad6b7169203331-01")
+	case 9:
+		t := now.Add(-3 * time.Second)
+		h.Set("X-Request-Start", fmt.Sprintf("t=%d.%03d", t.Unix(), t.Nanosecond()/1e6))
+	case 10:
+		h.Set("X-Request-Start", fmt.Sprintf("t=%d.000", now.Add(time.Hour).Unix()))
+	case 11:
+		h.Set("X-Request-Start", "yesterday")
+	case 12:
+		h.Add("X-Forwarded-For", "2001:db8::7")
+		h.Add("X-Forwarded-For", "192.0.2.1")
+	case 13:
+		h.Set("X-Forwarded-For", ", ,")
+	}
+	return h
 }
 
 // listed: which tagged connections does the relay itself report (GET /status)
@@ -484,6 +539,12 @@ func childScenario(inPath, outPath string) {
 		os.Exit(4)
 	}
 	rl := lib.StartRelay(lib.RelayOpts{BufferSize: int64(sc.BufferSize), PruneEvery: 10 * time.Minute})
+	switch sc.Log {
+	case "trace":
+		log.SetLevel(log.TraceLevel)
+	case "debug":
+		log.SetLevel(log.DebugLevel)
+	}
 	c := &child{rl: rl, sc: &sc, out: f, stats: rl.AdminBearer("relay:stats"), adm: rl.AdminBearer("relay:admin")}
 	if sc.Kind == "faults" {
 		c.runFaults()
@@ -565,8 +626,11 @@ func (c *child) runFaults() {
 			if err != nil {
 				return fmt.Errorf("good reader did not get message %d (%d of %d bytes): %v", seq, got, size, err)
 			}
+			if got == 0 && bytes.HasPrefix(data, []byte("late-")) {
+				continue // a reader that was dropped as slow may still write: that is a message like any other
+			}
 			if got == 0 && !bytes.HasPrefix(data, []byte(fmt.Sprintf("m%06d", seq))) {
-				return fmt.Errorf("good reader got something else than message %d", seq)
+				return fmt.Errorf("good reader got something else than message %d (%d bytes)", seq, len(data))
 			}
 			got += len(data)
 		}
@@ -586,8 +650,10 @@ func (c *child) runFaults() {
 	c.next = 2
 	for i, st := range c.sc.Steps {
 		so := StepObs{Step: i, K: st.K, Live: []uint64{}}
-		if st.K == "status-churn-flood" || st.K == "junk-dials-during-sessions" || st.K == "population" {
+		if st.K == "status-churn-flood" || st.K == "junk-dials-during-sessions" || st.K == "population" || st.K == "half-open-crowd" {
 			switch st.K {
+			case "half-open-crowd":
+				so.Note = c.halfOpenCrowd()
 			case "status-churn-flood":
 				so.Note = c.statusChurnFlood(i)
 			case "junk-dials-during-sessions":
@@ -624,7 +690,11 @@ func (c *child) runFaults() {
 		}
 		fbid := fmt.Sprintf("c08-bk-F%d", i)
 		opened := time.Now()
-		f, err := c.openExp(topic, fbid, fmt.Sprintf("c08-conn-%d", n), expIn)
+		scopes := []string{"read", "write"}
+		if st.K == "truncated-readonly" {
+			scopes = []string{"read"} // a connection without write scope can still send bytes
+		}
+		f, err := c.openWith(topic, fbid, fmt.Sprintf("c08-conn-%d", n), expIn, scopes, st.K == "oversize-deflate")
 		if err != nil {
 			so.Canary = "the relay no longer admits connections: " + err.Error()
 			so.Events = c.take()
@@ -634,9 +704,36 @@ func (c *child) runFaults() {
 		tcp, _ := f.UnderlyingConn().(*net.TCPConn)
 		gone := true // does this fault end the connection (as the relay sees it)
 		switch st.K {
-		case "oversize":
+		case "oversize", "oversize-deflate":
+			size := 10*1024*1024 + 1024
+			if st.K == "oversize-deflate" {
+				size = 24 << 20 // zeros: if the relay negotiated permessage-deflate this is a few KB on the wire
+			}
 			f.SetWriteDeadline(time.Now().Add(5 * time.Second))
-			f.WriteMessage(websocket.BinaryMessage, make([]byte, 10*1024*1024+1024))
+			f.WriteMessage(websocket.BinaryMessage, make([]byte, size))
+			// a message over the limit gets its sender closed (1009), and nobody is sent any of it
+			so.Note = "oversize-not-refused"
+			deadline := time.Now().Add(3 * time.Second)
+			for {
+				_, _, err := lib.ReadOne(f, time.Until(deadline))
+				if err == nil {
+					continue // something relayed from the topic: keep reading
+				}
+				switch {
+				case lib.IsTimeout(err):
+				case websocket.IsCloseError(err, websocket.CloseMessageTooBig):
+					so.Note = "oversize-closed-1009"
+				default:
+					so.Note = "oversize-closed"
+				}
+				break
+			}
+			// (that nobody is sent any of it shows at the good reader's next message: a read with a deadline
+			// that expires would poison the reader's connection, so it is not probed here)
+		case "truncated-readonly":
+			tcp.Write([]byte{0x82, 0x80 | 126, 0x03, 0xe8, 1, 2, 3, 4}) // announces 1000 bytes ...
+			tcp.Write(bytes.Repeat([]byte{0}, 10))                      // ... sends ten
+			tcp.CloseWrite()                                            // ... and hangs up its side
 		case "reserved-opcode":
 			tcp.Write(frame(0x3, true, []byte("reserved")))
 		case "unmasked":
@@ -768,6 +865,12 @@ func (c *child) runFaults() {
 					so.Note = "flooded-reader-evicted"
 				}
 			}
+			// a client that has been dropped as slow may still write
+			f.SetWriteDeadline(time.Now().Add(time.Second))
+			if f.WriteMessage(websocket.TextMessage, []byte("late-message")) == nil {
+				c.evs = append(c.evs, Ev{E: "Broadcast", N: n, A: 6}, Ev{E: "Drain", N: R, Cap: 1})
+				time.Sleep(100 * time.Millisecond)
+			}
 			// ... and then the stalled client goes away: the relay's blocked writer and its reader both end
 			tcp.SetLinger(0)
 			tcp.Close()
@@ -781,6 +884,9 @@ func (c *child) runFaults() {
 		if so.Pair == "" {
 			if err := relay(64); err != nil {
 				so.Pair = err.Error()
+				if strings.HasPrefix(st.K, "oversize") && strings.Contains(so.Pair, "something else") {
+					so.Note = "oversize-relayed: " + so.Pair
+				}
 			} else {
 				so.Pair = "ok"
 				c.evs = append(c.evs, Ev{E: "Broadcast", N: W, A: 2}, Ev{E: "Drain", N: R, Cap: 1})
@@ -1016,6 +1122,29 @@ func (c *child) population(i, n int) (string, string) {
 	return note, "" // the caller runs the second canary
 }
 
+// halfOpenCrowd: eighty peers that stop in the middle of the upgrade request and forty that stop in the
+// middle of an API request, all held open: valid requests must still be served promptly (the canary and
+// the good pair that follow say so)
+func (c *child) halfOpenCrowd() string {
+	ws := strings.TrimPrefix(c.rl.Target, "ws://")
+	api := strings.TrimPrefix(c.rl.AccessURL, "http://")
+	opened := 0
+	for k := 0; k < 120; k++ {
+		addr, req := ws, "GET /session/c08topic?code=x HTTP/1.1\r\nHost: "+ws+"\r\nUpgrade: websocket\r\nConnection: Upgr"
+		if k >= 80 {
+			addr, req = api, "POST /session/c08topic HTTP/1.1\r\nHost: "+api+"\r\nAuthorization: ey"
+		}
+		conn, err := net.DialTimeout("tcp", addr, time.Second)
+		if err != nil {
+			continue
+		}
+		conn.Write([]byte(req[:len(req)-k%7]))
+		c.hold(conn)
+		opened++
+	}
+	return fmt.Sprintf("half-open-crowd:%d", bucket(opened))
+}
+
 func bucket(n int) int {
 	b := 0
 	for _, x := range []int{10, 100, 1000, 10000, 100000} {
@@ -1226,6 +1355,10 @@ func oracleScenario(c Case, idx int, res *lib.Result) {
 	}
 	if c.Kind == "faults" {
 		for _, so := range r.Steps {
+			if so.Note == "oversize-not-refused" || strings.HasPrefix(so.Note, "oversize-relayed") {
+				res.Violate(lib.Violation{Clause: "oversize-not-refused", Case: idx, Replay: c, Key: "oversize-not-refused:" + so.K,
+					Detail: fmt.Sprintf("step %q: a message over the 10 MiB limit must get its sender closed and reach nobody; observed: %s", so.K, so.Note)})
+			}
 			if strings.HasPrefix(so.Note, "population:status-lists-") && so.Note != "population:status-lists-all" {
 				res.Violate(lib.Violation{Clause: "status-incomplete-under-load", Case: idx, Replay: c, Key: "status-incomplete-under-load",
 					Detail: "with more than a thousand connections registered the relay's own listing (GET /status) was not complete: " + so.Note})
